@@ -102,7 +102,7 @@ func idsString(ids [][]byte) string {
 
 func TestC19_IdentitiesAndPointer(t *testing.T) {
 	rec := recorder("C19")
-	rec.AddRule("rapid state machine over one Gnosis keyper (real schema on pgfake; verif-tagged constructor): queues of 0..N transactions over 1-2 keyper sets with gas at MinGasPerTransaction / around EncryptedGasLimit/k / at and above the limit and, one in twelve, near 2^31 / 2^32 / 2^62 / 2^63-1 (always >= MinGasPerTransaction, the configured lower bound), maximum pointer age 0-3 or, one in eight, 2^32 / 2^63-2 / 2^63-1; pointer rows {absent, before, inside, at, beyond the queue end} x age {0, max, max+1, unknown}; actions: slot trigger (age increment as maybeTriggerDecryption does, then the real triggerDecryption), keys received (real DecryptionKeysHandler.HandleMessage; for the newest trigger, for the trigger before it - late keys - or for a made-up one), keys self-produced (real middleware SendMessage), restart (ResetAllTxPointerAges), queue grows. Oracle: reference selection written from the statement (pointer used; slot identity + queue entries from the pointer while cumulative gas <= limit, at least one; sorted, slot identity first); the trigger on the channel and the current_decryption_trigger row (slot, pointer, keccak of identities) equal the reference; a second keyper on a clone of the database produces a byte-identical list; after a keys message with k keys at pointer p the row is (p+k-1, age 0). non-trivial = selection stopped by the gas limit, used the at-least-one rule, or fell back to the queue length; distinct by history")
+	rec.AddRule("rapid state machine over one Gnosis keyper (real schema on pgfake; verif-tagged constructor): queues of 0..N transactions over 1-2 keyper sets with gas at MinGasPerTransaction / around EncryptedGasLimit/k / at and above the limit and, one in twelve, near 2^31 / 2^32 / 2^62 / 2^63-1 (always >= MinGasPerTransaction, the configured lower bound; MinGasPerTransaction 21000 or, one in twelve, 1000 / 50000 / 100000; EncryptedGasLimit 100000 / 250000 / 1000000 or, one in twelve, below the minimum gas of one transaction: 20999 / 1 / 0), maximum pointer age 0-3 or, one in eight, 2^32 / 2^63-2 / 2^63-1; pointer rows {absent, before, inside, at, beyond the queue end} x age {0, max, max+1, unknown}; actions: slot trigger (age increment as maybeTriggerDecryption does, then the real triggerDecryption), keys received (real DecryptionKeysHandler.HandleMessage; for the newest trigger, for the trigger before it - late keys - or for a made-up one), keys self-produced (real middleware SendMessage), restart (ResetAllTxPointerAges), queue grows. Oracle: reference selection written from the statement (pointer used; slot identity + queue entries from the pointer while cumulative gas <= limit, at least one; sorted, slot identity first); the trigger on the channel and the current_decryption_trigger row (slot, pointer, keccak of identities) equal the reference; a second keyper on a clone of the database produces a byte-identical list; after a keys message with k keys at pointer p the row is (p+k-1, age 0). non-trivial = selection stopped by the gas limit, used the at-least-one rule, or fell back to the queue length; distinct by history")
 	rec.Assume("pgfake; transaction identity prefixes are non-zero so the slot identity sorts first (the SSZ type and contract fix sizes; see DESIGN C19)")
 	ctx := context.Background()
 	runRapid(t, N(1000, 500000), func(rt *rapid.T) {
@@ -110,6 +110,17 @@ func TestC19_IdentitiesAndPointer(t *testing.T) {
 		cfgG := gnosisConfigFor(me, 100)
 		cfgG.Gnosis.EncryptedGasLimit = uint64(rapid.SampledFrom([]int{100_000, 250_000, 1_000_000}).Draw(rt, "gasLimit"))
 		cfgG.Gnosis.MinGasPerTransaction = 21_000
+		smallLimit := false
+		switch rapid.IntRange(0, 11).Draw(rt, "gasConfig") {
+		case 0:
+			// a limit below the minimum gas of a single transaction: the at-least-one rule decides every slot
+			cfgG.Gnosis.EncryptedGasLimit = rapid.SampledFrom([]uint64{20_999, 1, 0}).Draw(rt, "gasLimitSmall")
+			smallLimit = true
+		case 1:
+			cfgG.Gnosis.MinGasPerTransaction = rapid.SampledFrom([]uint64{1_000, 50_000, 100_000}).Draw(rt, "minGas")
+			smallLimit = cfgG.Gnosis.MinGasPerTransaction > cfgG.Gnosis.EncryptedGasLimit
+		}
+		minGas := cfgG.Gnosis.MinGasPerTransaction
 		cfgG.Gnosis.MaxTxPointerAge = uint64(rapid.IntRange(0, 3).Draw(rt, "maxAge"))
 		if rapid.IntRange(0, 7).Draw(rt, "maxAgeHuge") == 0 {
 			// the largest values the configuration check admits
@@ -120,7 +131,7 @@ func TestC19_IdentitiesAndPointer(t *testing.T) {
 		model := &c19Model{Queue: map[int64][]queueTx{}, Pointer: map[int64]*struct {
 			Value int64
 			Age   *int64
-		}{}, GasLimit: cfgG.Gnosis.EncryptedGasLimit, MinGas: 21_000, MaxAge: int64(cfgG.Gnosis.MaxTxPointerAge)}
+		}{}, GasLimit: cfgG.Gnosis.EncryptedGasLimit, MinGas: minGas, MaxAge: int64(cfgG.Gnosis.MaxTxPointerAge)}
 		// one or two keyper sets / eons, the second activating later
 		nsets := rapid.IntRange(1, 2).Draw(rt, "nsets")
 		fix := getEonFixture(3, 2)
@@ -150,14 +161,18 @@ func TestC19_IdentitiesAndPointer(t *testing.T) {
 				gasKind := rapid.IntRange(0, 7).Draw(rt, fmt.Sprintf("gas%d", txCounter))
 				lim := model.GasLimit
 				// several combinations sum to exactly the limit (boundary of the "within the limit" rule)
-				gas := []uint64{21_000, lim - 21_000, lim / 2, lim / 2, lim / 4, lim / 4, lim, lim + 1}[gasKind]
+				below := lim - minGas // saturating
+				if minGas > lim {
+					below = 0
+				}
+				gas := []uint64{minGas, below, lim / 2, lim / 2, lim / 4, lim / 4, lim, lim + 1}[gasKind]
 				if rapid.IntRange(0, 11).Draw(rt, fmt.Sprintf("gasHuge%d", txCounter)) == 0 {
 					// the contract takes any uint256 and the syncer stores whatever fits the bigint column
 					gas = rapid.SampledFrom([]uint64{math.MaxInt64, math.MaxInt64 - 1, math.MaxInt64 - lim, 1 << 62, 1<<62 + 1, 1 << 32, 1<<32 - 1, 1 << 31}).Draw(rt, fmt.Sprintf("gasHugeV%d", txCounter))
 					hugeGas = true
 				}
-				if gas < 21_000 {
-					gas = 21_000
+				if gas < minGas {
+					gas = minGas
 				}
 				prefix := crypto.Keccak256([]byte(fmt.Sprintf("prefix-%d-%d", cfg, txCounter)))
 				tx := queueTx{Prefix: prefix, Sender: rapid.IntRange(1, 4).Draw(rt, fmt.Sprintf("snd%d", txCounter)), Gas: gas}
@@ -401,7 +416,10 @@ func TestC19_IdentitiesAndPointer(t *testing.T) {
 			labels = append(labels, "queue-entry-with-gas-limit-near-an-integer-boundary")
 		}
 		sort.Strings(labels)
-		rec.Case(fmt.Sprintf("limit=%d maxAge=%d | %s", model.GasLimit, model.MaxAge, strings.Join(desc, " ; ")), nontrivial, dedup(labels)...)
+		if smallLimit {
+			labels = append(labels, "gas-limit-below-minimum-gas-of-one-transaction")
+		}
+		rec.Case(fmt.Sprintf("limit=%d minGas=%d maxAge=%d | %s", model.GasLimit, minGas, model.MaxAge, strings.Join(desc, " ; ")), nontrivial, dedup(labels)...)
 	})
 }
 
